@@ -14,14 +14,14 @@ theorem c12_pair_memfd (mem : Nat) :
     (pair .memfd mem).1.res = none ∧ (pair .memfd mem).2.res = none ∧
     (pair .memfd mem).1.version = 3 ∧ (pair .memfd mem).2.version = 3 ∧
     (pair .memfd mem).1.mapped = some mem ∧ (pair .memfd mem).2.mapped = some mem := by
-  simp [pair, client, server, next, maxVersion]
+  simp [pair, client, server, next, maxVersion, canReply]
 
 /-- both real ends, file mapping (version-2 exchange): success on both with version 2 and the same memory -/
 theorem c12_pair_file (mem : Nat) :
     (pair .file mem).1.res = none ∧ (pair .file mem).2.res = none ∧
     (pair .file mem).1.version = 2 ∧ (pair .file mem).2.version = 2 ∧
     (pair .file mem).1.mapped = some mem ∧ (pair .file mem).2.mapped = some mem := by
-  simp [pair, client, server, next]
+  simp [pair, client, server, next, canReply]
 
 /-- a version-3 client reports success only after it has read, in this order, the server's version, the go-ahead for the
     descriptors and the final acknowledgement — whatever else the peer sends, closes or withholds -/
@@ -67,7 +67,7 @@ theorem c12_server_ack_means_mapped (inp : List Msg) (tail : Tail) : AckMeansMap
   unfold server
   simp only [next]
   repeat' split
-  all_goals simp [AckMeansMapped]
+  all_goals simp_all [AckMeansMapped]
 
 /-- failure always ends with nothing mapped on that end (newSession's clean-up; the real descriptors, mappings and files
     are counted by the harness) -/
@@ -85,6 +85,14 @@ theorem c12_failure_maps_nothing_server (inp : List Msg) (tail : Tail) : FailMap
   simp only [next]
   repeat' split
   all_goals simp [FailMapsNothing]
+
+/-- in particular when the acknowledgement itself cannot be written (the client stopped receiving, or died, after handing
+    over its memory): the server had mapped the memory, fails, and ends with nothing mapped -/
+theorem c12_ack_write_failure_unmaps (v mem : Nat) :
+    (server [.exVer 3, .metaFile v mem true] .deaf).res = some .eof ∧ (server [.exVer 3, .metaFile v mem true] .deaf).mapped = none ∧
+    (server [.exVer 3, .metaMemfd v mem, .fds mem true] .deaf).res = some .eof ∧
+    (server [.exVer 3, .metaMemfd v mem, .fds mem true] .deaf).mapped = none := by
+  simp [server, next, canReply, maxVersion]
 
 /-- the negotiated version is the lower of the two: the server stamps min(client's, 3) -/
 def ServerVersionMin (cv : Nat) (r : Result) : Prop := r.version = min cv maxVersion
